@@ -450,7 +450,7 @@ func (vc *FnVC) bigMethod(in *ssa.Call, m string, args []ssa.Value) bool {
 		ax := fmt.Sprintf("(ite (>= %s 0) %s (- %s))", x, x, x)
 		vc.fact(fmt.Sprintf("(and (>= %s 0) (= (= %s 0) (= %s 0)))", r, r, x))
 		// the thresholds the code base tests against
-		for _, k := range []int{8, 64, 256} {
+		for _, k := range []int{8, 31, 32, 63, 64, 256} {
 			vc.fact(fmt.Sprintf("(= (<= %s %d) (< %s %s))", r, k, ax, pow2(k).String()))
 		}
 		vc.setRes(in, intT(r))
@@ -503,6 +503,8 @@ func (vc *FnVC) binaryModel(in *ssa.Call, name string, args []ssa.Value) bool {
 		parts = append(parts, fmt.Sprintf("(* (select (select %s (s.arr %s)) (+ (s.off %s) %d)) %s)", h, b.S, b.S, i, pow2(8*shift).String()))
 	}
 	r := vc.defineNamed("bin", "Int", "(+ "+strings.Join(parts, " ")+")")
+	// every byte is in 0..255, so the assembled value fits the width
+	vc.fact(fmt.Sprintf("(and (<= 0 %s) (< %s %s))", r, r, pow2(8*w).String()))
 	vc.setRes(in, Term{S: r, Sort: "Int"})
 	vc.modelUsed(name)
 	return true
